@@ -77,6 +77,12 @@ CHECKS["C10"] = (
     "Violation signatures carry the class (capturing binder form / scope relation / direction / which member is wrong); the 22 classes that fail on the unchanged tree (capture in scope, binders outliving their block, names of live __dtN temporaries) are known findings matched by exact signature, every other class must hold. Shapes kept out: match in quoted code (refused by the tree, observed as such), letrec-body splice of a user function (diverges), nested uses of a let-like macro inside if arms / blocks / lambda calls, and the shapes of the core quarantines capture-of-destructured-variable and if-inside-aggregate-literal.",
     "DESIGN.md §3 C10",
 )
+CHECKS["C18"] = (
+    "differential oracle VM vs the Rust source emitted by Context::emit_rust, compiled with rustc and executed: fixed operator tables, generated core programs, every shipped source; outcome of emit/rustc/run and every output word",
+    "Each case runs on the VM through the CLI's code path; the same text goes through Context::emit_rust on a plugin-free ExecContext, gets a main modelled on rust_codegen_test.rs (host supplies now = sample index and samplerate = 48000 and answers every external call with an error; call_main if present; call_dsp per sample with that sample's input words; every output word printed as hex bits), is compiled with plain `rustc --edition=2024 -C opt-level=0` and run. Refuting events: emit_rust = Ok and rustc rejects the source; the binary exits non-zero or dies by a signal; a sample has another number of output words; any output word differs bitwise (NaN == NaN) from the VM's. emit_rust = Err is a refusal and fine; a panic inside emit_rust and programs the VM refuses are counted, not judged. Workload: 6 hand-written operator tables (operator x operand-class grids, delay times, state, upvalues, function values, arrays), 64 (quick) / 1500 (thorough) generated core programs with seeded inputs incl. NaN/inf/-0.0, every shipped .mmm of lib/, examples/, tests/mmm (incl. every fixture rust_codegen_test.rs runs); 16 rustc processes in parallel.",
+    "Trusts rustc on PATH and the shared libm; timeouts, SIGKILL and exhaustion of the binary's 1 GiB address space are inconclusive; six known findings (math builtins left to the host, mem/delay/array operands that are projections, the `..` default-argument form) are recorded with witnesses; the corresponding shapes are rewritten in generated programs / four shipped files are skipped by name so that the rest is still compared.",
+    "DESIGN.md §3 C18",
+)
 PENDING = {}
 
 def main():
